@@ -74,7 +74,7 @@ add("C14", "fault_enumeration",
     "crash-point enumeration: drop(context) is offered at every step of every bounded path (operations created-not-polled, queued behind a stalled writer, awaiting their ack, between the QoS 2 phases, "
     "held with a delivered ack; streams with and without buffered items, taken or not); afterwards the wake-only executor runs to quiescence and every future / stream must have completed as stated. "
     "distinct = distinct abstract trace shapes.",
-    {"quick": ["checked"], "thorough": ["checked", "fast"]},
+    {"quick": ["checked"], "thorough": ["checked", "fast", "asan?", "miri?"]},
     {"quick": {"context_exited_results_seen": 5000}, "thorough": {"context_exited_results_seen": 200000}})
 
 add("C15", "exploration",
@@ -89,7 +89,7 @@ add("C03", "exploration",
     "with 1-/2-/3-byte remaining lengths, packet boundaries swept across the client's own 512/1024-byte buffer steps, PRNG compositions; all under the wake-only executor, where "
     "`unread input, run() pending, no waker registered` at quiescence is a lost wakeup and run() ending without the mock signalling EOF is a premature end-of-stream. "
     "distinct = distinct (packet sequence, chunk plan) pairs.",
-    {"quick": ["checked", "fast"], "thorough": ["checked", "fast", "dev"]},
+    {"quick": ["checked", "fast"], "thorough": ["checked", "fast", "dev", "miri?"]},
     {"quick": {"compositions": 20000, "single_cuts": 2000, "fixed_read_sizes": 500}, "thorough": {"compositions": 500000}})
 
 # ---------------------------------------------------------------------------------------------
@@ -184,7 +184,7 @@ add("C04", "fault_enumeration",
     "a logical bound on transport calls per poll): (a) all byte strings up to the length bound over a 16-symbol boundary alphabet in each phase; (b,c) ~70 valid packets of every type - expected, unexpected for the phase, "
     "client-only, acknowledgements for unknown identifiers, spliced/zero/unknown properties - whole, duplicated, every truncation, every byte perturbed, every bit flipped, remaining length rewritten incl. 5-byte encodings, stacked PRNG mutations; "
     "(d) EOF / read error at every inbound byte offset and write error at every outbound byte offset of a canned conversation. Debug and release arithmetic. distinct = distinct (input bytes, phase) pairs.",
-    {"quick": ["checked", "fast"], "thorough": ["checked", "fast", "asan?"]},
+    {"quick": ["checked", "fast"], "thorough": ["checked", "fast", "asan?", "miri?"]},
     {"quick": {"byte_strings": 100000, "byte_mutations": 30000, "truncations": 3000, "read_faults": 200, "write_faults": 100}, "thorough": {"byte_strings": 3000000}},
     ["the documented assertion on brokers announcing no subscription-identifier support is exempt (its panic message is recognised and not reported)"], timeout=3400)
 MANIFEST_TEXT["C04"] = {
@@ -208,7 +208,7 @@ add("C11", "exploration",
     "broker-side monitor over the wire in logical (arrival) order: every PUBLISH QoS>0 / SUBSCRIBE / UNSUBSCRIBE must carry a non-zero identifier different from that of every operation whose acknowledgement the broker has not sent yet; "
     "every subscribe() gets its own subscription identifier; starting an operation never panics. Single task: histories of up to 300 000 identifier-consuming operations (several wrap-arounds) with 1 / 7 / 1000 / 60000 outstanding, "
     "counters seeded below the wrap through hook H2; multi-thread: real OS threads with handle clones issuing concurrent batches against a context thread and a reordering broker thread. distinct = distinct (run parameters).",
-    {"quick": ["checked", "fast"], "thorough": ["checked", "fast", "tsan?"]},
+    {"quick": ["checked", "fast"], "thorough": ["checked", "fast", "tsan?", "miri?"]},
     {"quick": {"id_consuming_operations": 400000, "identifier_wraps": 4, "mt_operations_completed": 100000}, "thorough": {"id_consuming_operations": 2000000}},
     ["the property's proviso is respected by construction: fewer than 65535 identifiers are allocated while any one operation is outstanding (window <= 60000, FIFO acknowledgement)",
      "more than 268 435 455 subscribe() calls on one client cannot be represented in MQTT 5 and are not driven"], timeout=3400)
